@@ -1,6 +1,364 @@
 /-
-C12 — helper lemmas for the join node.
+C12 — helper lemmas for the join node: the minimum-key bookkeeping (`oldestTime` is always the least time
+with pending sets), hence no nil dereference, no fuel exhaustion and a complete flush on Finish; and
+monotonicity of `time.Time.Round`.
 -/
 import Kap.Spec.C12
+
 namespace Kap.C12
+set_option linter.unusedSimpArgs false
+
+/-! ### the Go map as an association list -/
+
+def minStep {β : Type} (acc : Option Int) (p : Int × β) : Option Int :=
+  match acc with | none => some p.1 | some o => if p.1 < o then some p.1 else some o
+
+theorem minKey_eq {β : Type} (m : List (Int × β)) : minKey m = m.foldl minStep none := rfl
+
+/-- The fold that computes the minimum key, from any start value: the result is the start value or a key, is
+at most the start value and at most every key. -/
+theorem foldl_minStep {β : Type} (m : List (Int × β)) (acc : Option Int) :
+    (m = [] → m.foldl minStep acc = acc) ∧
+    (∀ a, acc = some a → ∃ r, m.foldl minStep acc = some r ∧ r ≤ a) ∧
+    (∀ p ∈ m, ∃ r, m.foldl minStep acc = some r ∧ r ≤ p.1) ∧
+    (m.foldl minStep acc = acc ∨ ∃ p ∈ m, m.foldl minStep acc = some p.1) := by
+  induction m generalizing acc with
+  | nil => exact ⟨fun _ => rfl, fun a h => ⟨a, h, Int.le_refl _⟩, by simp, Or.inl rfl⟩
+  | cons x xs ih =>
+    simp only [List.foldl_cons]
+    obtain ⟨_, i2, i3, i4⟩ := ih (minStep acc x)
+    have hstep : ∃ s, minStep acc x = some s ∧ s ≤ x.1 ∧ (∀ a, acc = some a → s ≤ a) ∧ (s = x.1 ∨ acc = some s) := by
+      unfold minStep
+      cases acc with
+      | none => exact ⟨x.1, rfl, Int.le_refl _, by simp, Or.inl rfl⟩
+      | some o =>
+        by_cases h : x.1 < o
+        · exact ⟨x.1, by simp [h], Int.le_refl _, by intro a ha; cases ha; omega, Or.inl rfl⟩
+        · exact ⟨o, by simp [h], by omega, by intro a ha; cases ha; omega, Or.inr rfl⟩
+    obtain ⟨s, hs, hs1, hs2, hs3⟩ := hstep
+    obtain ⟨r, hr, hr1⟩ := i2 s hs
+    refine ⟨by simp, ?_, ?_, ?_⟩
+    · intro a ha; exact ⟨r, hr, by have := hs2 a ha; omega⟩
+    · intro p hp
+      simp only [List.mem_cons] at hp
+      rcases hp with rfl | hp
+      · exact ⟨r, hr, by omega⟩
+      · exact i3 p hp
+    · rcases i4 with h | ⟨p, hp, h⟩
+      · rcases hs3 with h3 | h3
+        · right; exact ⟨x, by simp, by rw [h, hs, h3]⟩
+        · left; rw [h, hs, h3]
+      · right; exact ⟨p, by simp [hp], h⟩
+
+theorem alookup_isSome_of_mem {β : Type} (m : List (Int × β)) (p : Int × β) (hp : p ∈ m) : (alookup p.1 m).isSome := by
+  induction m with
+  | nil => simp at hp
+  | cons x xs ih =>
+    obtain ⟨k, v⟩ := x
+    simp only [alookup]
+    by_cases h : k = p.1
+    · simp [h]
+    · simp only [h, if_false]
+      simp only [List.mem_cons] at hp
+      rcases hp with rfl | hp
+      · simp at h
+      · exact ih hp
+
+/-- The minimum key is a key. -/
+theorem minKey_isSome_lookup {β : Type} (m : List (Int × β)) (o : Int) (h : minKey m = some o) : (alookup o m).isSome := by
+  rw [minKey_eq] at h
+  rcases (foldl_minStep m none).2.2.2 with h0 | ⟨p, hp, hpe⟩
+  · rw [h] at h0; cases h0
+  · rw [h] at hpe; cases hpe; exact alookup_isSome_of_mem m p hp
+
+theorem minKey_nil_iff {β : Type} (m : List (Int × β)) : minKey m = none ↔ m = [] := by
+  constructor
+  · intro h
+    cases m with
+    | nil => rfl
+    | cons x xs =>
+      obtain ⟨r, hr, _⟩ := (foldl_minStep (x :: xs) none).2.2.1 x (by simp)
+      rw [minKey_eq] at h; rw [h] at hr; cases hr
+  · intro h; subst h; rfl
+
+end Kap.C12
+
+namespace Kap.C12
+set_option linter.unusedSimpArgs false
+
+theorem minStep_fst {β : Type} (acc : Option Int) (k : Int) (v w : β) : minStep acc (k, v) = minStep acc (k, w) := rfl
+
+theorem foldl_aupsert {β : Type} (t : Int) (q : β) (m : List (Int × β)) (acc : Option Int) :
+    (aupsert t q m).foldl minStep acc = minStep (m.foldl minStep acc) (t, q) := by
+  induction m generalizing acc with
+  | nil => rfl
+  | cons x xs ih =>
+    obtain ⟨k, v⟩ := x
+    simp only [aupsert]
+    by_cases h : k = t
+    · subst h
+      simp only [if_true, List.foldl_cons]
+      rw [minStep_fst acc k q v]
+      -- the fold from a start ≤ k stays ≤ k
+      have hs : ∃ s, minStep acc (k, v) = some s ∧ s ≤ k := by
+        unfold minStep
+        cases acc with
+        | none => exact ⟨k, rfl, Int.le_refl _⟩
+        | some o => by_cases h : k < o
+                    · exact ⟨k, by simp [h], Int.le_refl _⟩
+                    · exact ⟨o, by simp [h], by simp at h; omega⟩
+      obtain ⟨s, hs1, hs2⟩ := hs
+      obtain ⟨r, hr, hr1⟩ := (foldl_minStep xs (minStep acc (k, v))).2.1 s hs1
+      rw [hr]
+      simp only [minStep]
+      rw [if_neg (by omega)]
+    · simp only [h, if_false, List.foldl_cons]
+      exact ih _
+
+theorem takeWhile_true {β : Type} (q : List β) : q.takeWhile (fun _ => true) = q := by
+  induction q with
+  | nil => rfl
+  | cons x xs ih => simp [List.takeWhile_cons, ih]
+
+theorem aerase_length_lt {β : Type} (o : Int) (m : List (Int × β)) (h : (alookup o m).isSome) :
+    (aerase o m).length < m.length := by
+  unfold aerase
+  induction m with
+  | nil => simp [alookup] at h
+  | cons x xs ih =>
+    obtain ⟨k, v⟩ := x
+    by_cases hk : k = o
+    · subst hk
+      simp only [List.filter_cons, ne_eq, not_true_eq_false, decide_false, Bool.false_eq_true, if_false, List.length_cons]
+      exact Nat.lt_succ_of_le (List.length_filter_le _ _)
+    · have h' : (alookup o xs).isSome := by simpa [alookup, hk] using h
+      have := ih h'
+      simp only [List.filter_cons, ne_eq, hk, not_false_eq_true, decide_true, if_true, List.length_cons]
+      exact Nat.succ_lt_succ this
+
+theorem aupsert_length_eq {β : Type} (o : Int) (q : β) (m : List (Int × β)) (h : (alookup o m).isSome) :
+    (aupsert o q m).length = m.length := by
+  induction m with
+  | nil => simp [alookup] at h
+  | cons x xs ih =>
+    obtain ⟨k, v⟩ := x
+    simp only [aupsert]
+    by_cases hk : k = o
+    · simp [hk]
+    · have : (alookup o xs).isSome := by simpa [alookup, hk] using h
+      simp [hk, ih this]
+
+namespace JGroup
+variable {α : Type}
+
+/-- `oldestTime` is the least time that has pending sets (zero when there is none). -/
+def KeyInv (g : JGroup α) : Prop := g.oldest = minKey g.sets
+
+theorem keyInv_new (n : Nat) : (JGroup.new n : JGroup α).KeyInv := rfl
+
+/-- `emit` never panics from a state satisfying `KeyInv`, never runs out of fuel, keeps `KeyInv`, never adds a
+pending time, and removes at least one when it was allowed to emit non-ready sets. -/
+theorem emit_ok (fuel : Nat) (g : JGroup α) (only : Bool) (out : List (JSet α)) (h : g.KeyInv) (hf : g.sets.length < fuel) :
+    (emit fuel g only out).2.2 = .ok ∧ (emit fuel g only out).1.KeyInv ∧
+    (emit fuel g only out).1.sets.length ≤ g.sets.length ∧
+    (only = false → g.sets ≠ [] → (emit fuel g only out).1.sets.length < g.sets.length) := by
+  induction fuel generalizing g only out with
+  | zero => omega
+  | succ fuel ih =>
+    simp only [emit]
+    by_cases he : g.sets.isEmpty
+    · simp only [he, if_true]
+      exact ⟨by trivial, h, Nat.le_refl _, fun _ hn => absurd (List.isEmpty_iff.mp he) hn⟩
+    · simp only [he, if_false]
+      have hne : g.sets ≠ [] := by intro hc; simp [hc] at he
+      have ho : ∃ o, g.oldest = some o := by
+        cases hh : g.oldest with
+        | none => rw [h] at hh; exact absurd ((minKey_nil_iff _).mp hh) hne
+        | some o => exact ⟨o, rfl⟩
+      obtain ⟨o, ho⟩ := ho
+      have hl := minKey_isSome_lookup g.sets o (by rw [← h, ho])
+      rw [ho]
+      simp only []
+      cases hq : alookup o g.sets with
+      | none => rw [hq] at hl; simp at hl
+      | some q =>
+        simp only []
+        by_cases hon : only = true
+        · subst hon
+          simp only [Bool.not_true, Bool.false_eq_true, if_false]
+          refine ⟨by trivial, by unfold KeyInv; trivial, ?_, by intro hc; cases hc⟩
+          split
+          · exact Nat.le_of_lt (aerase_length_lt o g.sets hl)
+          · rw [aupsert_length_eq o _ g.sets hl]; exact Nat.le_refl _
+        · have hof : only = false := by cases only <;> simp_all
+          subst hof
+          simp only [Bool.not_false, Bool.or_true, takeWhile_true, if_true, Bool.false_eq_true, if_false]
+          have hlt := aerase_length_lt o g.sets hl
+          obtain ⟨r1, r2, r3, _⟩ := ih { g with sets := aerase o g.sets, oldest := minKey (aerase o g.sets) }
+            (checkOnlyReady { g with sets := aerase o g.sets, oldest := minKey (aerase o g.sets) }) (out ++ q.take q.length)
+            rfl (by simp only []; omega)
+          refine ⟨r1, r2, ?_, fun _ _ => ?_⟩
+          · simp only [] at r3; omega
+          · simp only [] at r3; omega
+
+theorem checkAndEmit_ok (g : JGroup α) (h : g.KeyInv) :
+    (checkAndEmit g).2.2 = .ok ∧ (checkAndEmit g).1.KeyInv := by
+  have := emit_ok g.fuelFor g g.checkOnlyReady [] h (by simp [fuelFor])
+  exact ⟨this.1, this.2.1⟩
+
+theorem collect_ok (expected : Nat) (g : JGroup α) (src : Nat) (t : Int) (p : α) (h : g.KeyInv) :
+    (collect expected g src t p).2.2 = .ok ∧ (collect expected g src t p).1.KeyInv := by
+  unfold collect
+  apply checkAndEmit_ok
+  unfold KeyInv at h ⊢
+  simp only []
+  rw [minKey_eq, foldl_aupsert, ← minKey_eq, ← h]
+  rfl
+
+theorem barrier_ok (g : JGroup α) (src : Nat) (t : Int) (h : g.KeyInv) :
+    (barrier g src t).2.2 = .ok ∧ (barrier g src t).1.KeyInv := by
+  unfold barrier
+  exact checkAndEmit_ok _ h
+
+theorem emitAll_ok (fuel : Nat) (g : JGroup α) (out : List (JSet α)) (h : g.KeyInv) (hf : g.sets.length ≤ fuel) :
+    (emitAll fuel g out).2.2 = .ok ∧ (emitAll fuel g out).1.sets = [] := by
+  induction fuel generalizing g out with
+  | zero =>
+    have : g.sets = [] := List.length_eq_zero_iff.mp (by omega)
+    simp [emitAll, this]
+  | succ fuel ih =>
+    simp only [emitAll]
+    by_cases he : g.sets.isEmpty
+    · simp only [he, if_true]; exact ⟨by trivial, List.isEmpty_iff.mp he⟩
+    · simp only [he, if_false]
+      have hne : g.sets ≠ [] := by intro hc; simp [hc] at he
+      obtain ⟨e1, e2, _, e4⟩ := emit_ok g.fuelFor g false out h (by simp [fuelFor])
+      have e4' := e4 rfl hne
+      generalize hr : emit g.fuelFor g false out = r at e1 e2 e4'
+      obtain ⟨g', out', st⟩ := r
+      simp only [] at e1 e2 e4'
+      subst e1
+      simp only []
+      exact ih g' out' e2 (by omega)
+
+/-- **Finish flushes**: from any state satisfying `KeyInv`, `emitAll` ends without panic with no pending set. -/
+theorem finish_ok (g : JGroup α) (h : g.KeyInv) : (finish g).2.2 = .ok ∧ (finish g).1.sets = [] :=
+  emitAll_ok _ g [] h (by omega)
+
+end JGroup
+end Kap.C12
+
+namespace Kap.C12
+namespace JNode
+
+def NodeInv (nd : JNode) : Prop := ∀ p ∈ nd.groups, p.2.KeyInv
+
+theorem glookup_mem (k : String) (gs : List (String × JGroup JMsg)) (g : JGroup JMsg) (h : glookup k gs = some g) :
+    (k, g) ∈ gs := by
+  induction gs with
+  | nil => simp [glookup] at h
+  | cons x xs ih =>
+    obtain ⟨k', v⟩ := x
+    simp only [glookup] at h
+    by_cases hk : k' = k
+    · simp only [hk, if_true, Option.some.injEq] at h; subst h; simp [hk]
+    · simp only [hk, if_false] at h; simp [ih h]
+
+theorem gupsert_all (P : JGroup JMsg → Prop) (k : String) (v : JGroup JMsg) (gs : List (String × JGroup JMsg))
+    (h : ∀ p ∈ gs, P p.2) (hv : P v) : ∀ p ∈ gupsert k v gs, P p.2 := by
+  induction gs with
+  | nil => intro p hp; simp only [gupsert, List.mem_singleton] at hp; subst hp; exact hv
+  | cons x xs ih =>
+    obtain ⟨k', v'⟩ := x
+    simp only [gupsert]
+    by_cases hk : k' = k
+    · simp only [hk, if_true]
+      intro p hp
+      simp only [List.mem_cons] at hp
+      rcases hp with rfl | hp
+      · exact hv
+      · exact h p (by simp [hp])
+    · simp only [hk, if_false]
+      intro p hp
+      simp only [List.mem_cons] at hp
+      rcases hp with rfl | hp
+      · exact h _ (by simp)
+      · exact ih (fun p hp => h p (by simp [hp])) p hp
+
+theorem group_keyInv (cfg : JCfg) (nd : JNode) (id : String) (h : nd.NodeInv) : (nd.group cfg id).KeyInv := by
+  unfold group
+  cases hg : glookup id nd.groups with
+  | none => exact JGroup.keyInv_new _
+  | some g => exact h _ (glookup_mem _ _ _ hg)
+
+theorem step_ok (cfg : JCfg) (nd : JNode) (op : JOp) (h : nd.NodeInv) :
+    (nd.step cfg op).2.2 = .ok ∧ (nd.step cfg op).1.NodeInv := by
+  cases op with
+  | point src m =>
+    have := JGroup.collect_ok cfg.names.length (nd.group cfg m.grp) src (goRound cfg.tol m.time) m (group_keyInv cfg nd m.grp h)
+    exact ⟨this.1, gupsert_all _ _ _ _ h this.2⟩
+  | barrier src grp t =>
+    have := JGroup.barrier_ok (nd.group cfg grp) src (goRound cfg.tol t) (group_keyInv cfg nd grp h)
+    exact ⟨this.1, gupsert_all _ _ _ _ h this.2⟩
+
+theorem runOps_ok (cfg : JCfg) (ops : List JOp) (nd : JNode) (h : nd.NodeInv) :
+    (nd.runOps cfg ops).2.2 = .ok ∧ (nd.runOps cfg ops).1.NodeInv := by
+  induction ops generalizing nd with
+  | nil => exact ⟨rfl, h⟩
+  | cons op ops ih =>
+    simp only [runOps]
+    obtain ⟨s1, s2⟩ := step_ok cfg nd op h
+    obtain ⟨r1, r2⟩ := ih _ s2
+    refine ⟨?_, r2⟩
+    rw [s1, r1]; rfl
+
+theorem finish_ok (gs : List (String × JGroup JMsg)) (h : ∀ p ∈ gs, p.2.KeyInv) :
+    (finish gs).2.2 = .ok ∧ ∀ p ∈ (finish gs).1, p.2.sets = [] := by
+  induction gs with
+  | nil => exact ⟨rfl, by intro p hp; simp [finish] at hp⟩
+  | cons x xs ih =>
+    obtain ⟨k, g⟩ := x
+    obtain ⟨f1, f2⟩ := JGroup.finish_ok g (h (k, g) (by simp))
+    obtain ⟨i1, i2⟩ := ih (fun p hp => h p (by simp [hp]))
+    simp only [finish]
+    refine ⟨by rw [f1, i1]; rfl, ?_⟩
+    intro p hp
+    simp only [List.mem_cons] at hp
+    rcases hp with rfl | hp
+    · exact f2
+    · exact i2 p hp
+
+end JNode
+end Kap.C12
+namespace Kap.C12
+
+/-- `time.Time.Round` is monotone: a parent that delivers in time order delivers in rounded-time order. -/
+theorem goRound_mono (d t t' : Int) (h : t ≤ t') : goRound d t ≤ goRound d t' := by
+  unfold goRound
+  by_cases hd : d ≤ 0
+  · simp [hd, h]
+  · simp only [hd, if_false]
+    have hd' : 0 < d := by omega
+    generalize ha : t + unixToAbs = a
+    generalize ha' : t' + unixToAbs = a'
+    have hle : a ≤ a' := by omega
+    have e1 := Int.emod_add_mul_ediv a d
+    have e2 := Int.emod_add_mul_ediv a' d
+    have r1 := Int.emod_nonneg a (by omega : d ≠ 0)
+    have r2 := Int.emod_lt_of_pos a hd'
+    have r1' := Int.emod_nonneg a' (by omega : d ≠ 0)
+    have r2' := Int.emod_lt_of_pos a' hd'
+    have hq := Int.ediv_le_ediv hd' hle
+    generalize hX : d * (a / d) = X at e1
+    generalize hX' : d * (a' / d) = X' at e2
+    have hXX : X = X' ∨ X + d ≤ X' := by
+      by_cases hqq : a / d = a' / d
+      · left; rw [← hX, ← hX', hqq]
+      · right
+        have : a / d + 1 ≤ a' / d := by omega
+        have := Int.mul_le_mul_of_nonneg_left this (by omega : 0 ≤ d)
+        rw [Int.mul_add, Int.mul_one] at this
+        omega
+    split <;> split <;> omega
+
 end Kap.C12
